@@ -261,17 +261,12 @@ theorem good_step {s s' : State} {l : Label} (hg : Good s) (h : step s l = some 
     have hc := hk.calls_ok k hkm
     exact connOk_setCall hk hkj (hk.started_hs k hkm)
       (fun _ _ _ hcan => by simp at hcan) ⟨hc.plan_eq, hc.recv_le, hc.unstarted⟩
-  | ageTick =>
+  | ageTick c =>
     simp only [step] at h
     split at h
-    · cases h
-      refine { hg with conns := ?_ }
-      intro x hx
-      obtain ⟨cn, hcn, rfl⟩ := List.mem_map.1 hx
-      have hk := hg.conns cn hcn
-      split
-      · exact { hk with watcher_acc := hk.watcher_acc }
-      · exact hk
+    · refine good_updConn hg h ?_
+      intro cn _ _ hk
+      exact { hk with watcher_acc := hk.watcher_acc }
     · cases h
   | loopSig =>
     simp only [step] at h
@@ -501,10 +496,14 @@ theorem step_cfg {s s' : State} {l : Label} (h : step s l = some s') :
     s'.cfgGraceful = s.cfgGraceful ∧ s'.cfgBiased = s.cfgBiased ∧ s'.cfgAge = s.cfgAge := by
   cases l <;> simp only [step] at h
   case offer | freeRun => cases h; exact ⟨rfl, rfl, rfl⟩
-  case sigFire | endIncoming | acceptErr | ageTick | loopSig | loopErr | loopEnd | afterLoop
+  case sigFire | endIncoming | acceptErr | loopSig | loopErr | loopEnd | afterLoop
       | resolve =>
     split at h
     · cases h; exact ⟨rfl, rfl, rfl⟩
+    · cases h
+  case ageTick =>
+    split at h
+    · obtain ⟨_, _, _, rfl⟩ := updConn_some h; exact ⟨rfl, rfl, rfl⟩
     · cases h
   case issue | peerDrop | connSig | connAge | connBreak | connDropWatcher | hsDone | final =>
     obtain ⟨_, _, _, rfl⟩ := updConn_some h; exact ⟨rfl, rfl, rfl⟩
